@@ -342,10 +342,8 @@ def translate_vectors(repo, out):
     # unary minus: `V result = asImp(); ... for (...) result[i] = -asImp()[i]; return result;`
     what = "DenseVector::operator-()"
     body = one_def(dv, r"operator-", what, lambda p: p == "")[1]
-    if not re.search(r"\b(?:V|derived_type|auto)\s+result\s*=\s*asImp\(\)\s*;", body) and \
-       not re.search(r"\b(?:V|derived_type)\s+result\s*\(\s*asImp\(\)\s*\)\s*;", body):
-        raise TranslateError("%s: the result is not a copy of asImp()" % what)
-    b = re.sub(r"\b(?:V|derived_type|auto)\s+result\s*(?:=\s*asImp\(\)|\(\s*asImp\(\)\s*\))\s*;", "", body)
+    vneg_result = neg_result(body, what, "V")
+    b = re.sub(NEG_DECL % ("V", "V"), "", body)
     b = re.sub(r"using\s+idx_type\s*=[^;]*;", "", b)
     v, stmt, rest = elem_sig(b, what)
     if rest != "returnresult;":
@@ -356,6 +354,19 @@ def translate_vectors(repo, out):
     sigs["neg"] = "{ op := .set, rhs := .negSelf }"
     for k in ["plusAssign", "minusAssign", "plusAssignScalar", "minusAssignScalar", "timesAssign", "divAssign", "axpy", "neg"]:
         out.append("def vsig_%s : ElemSig := %s" % (k, sigs[k]))
+    out.append("-- the result of unary minus: a value of the autonomous type (for asVector(s): FieldVector<K,1>), or a copy of the operand's own type")
+    out.append("def vnegResult : NegResult := %s" % vneg_result)
+    # fvector.hh: the binary operators of FieldVector with a scalar
+    fv = class_body(rd("fvector.hh"), r"template\s*<\s*class\s+K\s*,\s*int\s+SIZE\s*>\s*class\s+FieldVector\s*:", "FieldVector")
+    out.append("-- fvector.hh: FieldVector * scalar, scalar * FieldVector, FieldVector / scalar (fresh result, one loop)")
+    for name, rx, params in (("times", r"operator\*", "constFieldVector&vector,Scalarscalar"),
+                             ("ltimes", r"operator\*", "Scalarscalar,constFieldVector&vector"),
+                             ("over", r"operator/", "constFieldVector&vector,Scalarscalar")):
+        what = "FieldVector operator %s" % name
+        body = one_def(fv, rx + r"(?!=)", what, lambda p, q=params: p == q)[1]
+        out.append("def fvsig_%s : EwSig := %s" % (name, ew_sig(
+            body, what, r"FieldVector<T,\s*SIZE>\s*result\s*;", [r"vector\.size\(\)|SIZE|dimension|vector\.N\(\)"],
+            {"vector": ".a"}, scalar="scalar")))
     # binary + and -: copy of *this, compound assignment
     for name, opname, gen in (("plus", r"operator\+", "plusAssign"), ("minus", r"operator-", "minusAssign")):
         what = "DenseVector::operator%s(vector)" % ("+" if name == "plus" else "-")
@@ -433,8 +444,32 @@ def translate_vectors(repo, out):
 PEXT = {"fstRows": ".fstRows", "fstCols": ".fstCols", "sndRows": ".sndRows", "sndCols": ".sndCols"}
 
 
-def prod_sig(body, what, target, fst, snd, bounds, pre=()):
-    """three-deep product nest.  target/fst/snd: regexes of the matrix names; bounds: {source bound text: extent}"""
+def copyback_ok(rest, rows_b, cols_b):
+    """the statements after an in-place product nest that was accumulated in the copy C: `*this = C;` or the nest
+    `for i < rows: for j < cols: (*this)[i][j] = C[i][j];` (loops in either order)"""
+    if rest in ("*this=C;", "(*this)=C;", "asImp()=C;"):
+        return True
+    try:
+        vi, bi, body_i, r1 = parse_loop(rest, "copy back")
+        if r1:
+            return False
+        vj, bj, stmt, r2 = parse_loop(body_i, "copy back")
+        if r2 or vi == vj:
+            return False
+    except (TranslateError, ValueError):
+        return False
+    strip = lambda b: re.sub(r"^(?:this->|asImp\(\)\.)", "", b)
+    m = re.fullmatch(r"\(\*this\)\[(%s)\]\[(%s)\]=C\[(%s)\]\[(%s)\];" % ((ID,) * 4), stmt)
+    if not m or m.group(1) != m.group(3) or m.group(2) != m.group(4):
+        return False
+    bound = {vi: strip(bi), vj: strip(bj)}
+    a, b = m.group(1), m.group(2)
+    return {a, b} == {vi, vj} and bound[a] in rows_b and bound[b] in cols_b
+
+
+def prod_sig(body, what, target, fst, snd, bounds, pre=(), tail=None):
+    """three-deep product nest.  target/fst/snd: regexes of the matrix names; bounds: {source bound text: extent};
+    tail: predicate for the statements that may follow the nest (default: none may)"""
     b = body
     for d in pre:
         b, n = re.subn(d, "", b)
@@ -446,7 +481,10 @@ def prod_sig(body, what, target, fst, snd, bounds, pre=()):
     s = squeeze(b)
     s = re.sub(r"return(?:asImp\(\)|\*this|result|C|ret)?;$", "", s)
     vi, bi, body_i, rest = parse_loop(s, what)
-    if rest:
+    if tail is not None:
+        if not tail(rest):
+            raise TranslateError("%s: the statements after the loop nest do not copy the result back: %r" % (what, rest))
+    elif rest:
         raise TranslateError("%s: unexpected statements after the loop nest: %r" % (what, rest))
     vj, bj, body_j, rest = parse_loop(body_i, what)
     if rest:
@@ -505,6 +543,90 @@ def prod_sig(body, what, target, fst, snd, bounds, pre=()):
             "    f1 := { opd := .fst, r := %s, c := %s }, f2 := { opd := .snd, r := %s, c := %s } }"
             % (ext(bi), ext(bj), ext(bk), var[tr], var[tc], "true" if init else "false",
                var[res[0][1][1]], var[res[0][1][2]], var[res[1][1][1]], var[res[1][1][2]]))
+
+
+def inplace_sig(body, what, m_first, bounds, pre, rows_b, cols_b):
+    """in-place product `*this = M * *this` (m_first) / `*this = *this * M` with a copy C of *this:
+    either the nest accumulates in C, reading *this and M, and the result is copied back (-> `.copyBack`: an argument M that
+    is the matrix itself is read unmodified), or it writes *this reading C and M (-> `.direct`)"""
+    this = r"\(\*this\)"
+    errs = []
+    for via, target, other in ((".copyBack", "C", this), (".direct", this, "C")):
+        fst, snd = ("M", other) if m_first else (other, "M")
+        try:
+            sig = prod_sig(body, what, target, fst, snd, bounds, pre=pre,
+                           tail=(lambda rest: copyback_ok(rest, rows_b, cols_b)) if via == ".copyBack" else None)
+            return sig, via
+        except TranslateError as e:
+            errs.append(str(e))
+    raise TranslateError("%s: neither form of the in-place product: %s" % (what, " / ".join(errs)))
+
+
+EWOPS = {"+": ".add", "-": ".sub", "*": ".mul", "/": ".div"}
+
+
+def ew_sig(body, what, decl, bound_rxs, entries, scalar=None, target="result", init_copy=False):
+    """fresh-result elementwise loop (nest): `DECL result; for i [for j] result[i][j] = L op R; return result;`
+    bound_rxs: regexes of the loop bounds (one per index: rows[, cols]); entries: {source name: '.a' | '.b'} -> EwSig text"""
+    b, n = re.subn(decl, "", body)
+    if n != 1:
+        raise TranslateError("%s: declaration of the result outside the grammar" % what)
+    b = re.sub(r"using\s+(?:T|idx_type)\s*=[^;]*;", "", b)
+    s = squeeze(b)
+    if not s.endswith("return%s;" % target):
+        raise TranslateError("%s: does not return %s" % (what, target))
+    s = s[:-len("return%s;" % target)]
+    vs, bs = [], []
+    stmt = s
+    for _ in bound_rxs:
+        v, bd, stmt, rest = parse_loop(stmt, what)
+        if rest:
+            raise TranslateError("%s: unexpected statements after a loop: %r" % (what, rest))
+        vs.append(v)
+        bs.append(bd)
+    if len(set(vs)) != len(vs):
+        raise TranslateError("%s: loop variables not distinct" % what)
+    # which loop runs over which index (rows first): the loops of a nest may come in either order
+    order = None
+    for perm in ([0], ) if len(vs) == 1 else ([0, 1], [1, 0]):
+        if all(re.fullmatch(bound_rxs[k], bs[perm[k]]) for k in range(len(vs))):
+            order = perm
+            break
+    if order is None:
+        raise TranslateError("%s: loop bounds %r outside the grammar" % (what, bs))
+    idx = "".join(r"\[%s\]" % re.escape(vs[order[k]]) for k in range(len(vs)))
+    m = re.fullmatch(r"%s%s=(.*);" % (re.escape(target), idx), stmt)
+    if not m:
+        raise TranslateError("%s: statement outside the grammar: %r" % (what, stmt))
+    rhs = m.group(1)
+    def opd(t):
+        for name, tag in entries.items():
+            if re.fullmatch(r"(?:%s)%s" % (name, idx), t):
+                return tag
+        if scalar and t == scalar:
+            return ".k"
+        return None
+    m = re.fullmatch(r"-(.*)", rhs)
+    if m and opd(m.group(1)):
+        return "{ lhs := %s, op := .neg, rhs := %s }" % (opd(m.group(1)), opd(m.group(1)))
+    for sym in "+-*/":
+        parts = rhs.split(sym)
+        if len(parts) == 2 and opd(parts[0]) and opd(parts[1]):
+            return "{ lhs := %s, op := %s, rhs := %s }" % (opd(parts[0]), EWOPS[sym], opd(parts[1]))
+    raise TranslateError("%s: right-hand side outside the grammar: %r" % (what, rhs))
+
+
+def neg_result(body, what, tname):
+    """how unary minus declares its result: `AutonomousValue<T> result = asImp();` (a value also for a view) or
+    `T result = asImp();` (for a view type: a second handle onto the operand)"""
+    if re.search(r"\bAutonomousValue<\s*(?:%s|derived_type)\s*>\s+result\s*(?:=\s*asImp\(\)|\(\s*asImp\(\)\s*\))\s*;" % tname, body):
+        return ".autonomous"
+    if re.search(r"\b(?:%s|derived_type|auto)\s+result\s*(?:=\s*asImp\(\)|\(\s*asImp\(\)\s*\))\s*;" % tname, body):
+        return ".sameType"
+    raise TranslateError("%s: the result is not a copy of asImp()" % what)
+
+
+NEG_DECL = r"\b(?:AutonomousValue<\s*(?:%s|derived_type)\s*>|%s|derived_type|auto)\s+result\s*(?:=\s*asImp\(\)|\(\s*asImp\(\)\s*\))\s*;"
 
 
 def trans_sig(body, what, rows_b, cols_b, decl):
@@ -643,7 +765,7 @@ def translate_views(repo, out):
 
 def translate(repo):
     rd = lambda f: strip_comments(open(os.path.join(repo, "dune/common", f)).read())
-    out = ["-- GENERATED by tools/translators/tr_c01.py from dune/common/{densematrix,diagonalmatrix,transpose,fmatrix,densevector,dotproduct,scalarvectorview,scalarmatrixview}.hh"
+    out = ["-- GENERATED by tools/translators/tr_c01.py from dune/common/{densematrix,diagonalmatrix,transpose,fmatrix,fvector,densevector,dotproduct,scalarvectorview,scalarmatrixview}.hh"
            " -- do not edit",
            "import DuneVerif.Model.C01.Basic",
            "namespace DV.C01.Gen",
@@ -727,11 +849,13 @@ def translate(repo):
          "cols": "sndCols", "COLS": "sndCols", "cols()": "sndCols", "M()": "sndCols", "M.cols()": "fstCols", "M.M()": "fstCols"},
         pre=[r"FieldMatrix<K,l,cols>\s*C\s*;"]))
     body = one_def(fm, r"rightmultiply", "FieldMatrix::rightmultiply")[1]
-    out.append("def psig_fmRightmultiply : ProdSig :=\n  " + prod_sig(
-        body, "FieldMatrix::rightmultiply", r"\(\*this\)", "C", "M",
+    inplace = {}
+    sig, inplace["fmRightmultiply"] = inplace_sig(
+        body, "FieldMatrix::rightmultiply", False,
         {"rows": "fstRows", "ROWS": "fstRows", "rows()": "fstRows", "N()": "fstRows", "cols": "fstCols", "COLS": "fstCols", "cols()": "fstCols",
          "M()": "fstCols", "r": "sndRows", "c": "sndCols", "M.rows()": "sndRows", "M.cols()": "sndCols", "M.N()": "sndRows", "M.M()": "sndCols"},
-        pre=[r"FieldMatrix<K,rows,cols>\s*C\s*\(\s*\*this\s*\)\s*;"]))
+        [r"FieldMatrix<K,rows,cols>\s*C\s*\(\s*\*this\s*\)\s*;"], {"rows", "ROWS", "rows()", "N()"}, {"cols", "COLS", "cols()", "M()"})
+    out.append("def psig_fmRightmultiply : ProdSig :=\n  " + sig)
     body = one_def(fm, r"rightmultiplyany", "FieldMatrix::rightmultiplyany")[1]
     out.append("def psig_fmRightmultiplyany : ProdSig :=\n  " + prod_sig(
         body, "FieldMatrix::rightmultiplyany", "C", r"\(\*this\)", "M",
@@ -739,17 +863,22 @@ def translate(repo):
          "M()": "fstCols", "l": "sndCols", "M.cols()": "sndCols", "M.M()": "sndCols", "M.rows()": "sndRows", "M.N()": "sndRows"},
         pre=[r"FieldMatrix<K,rows,l>\s*C\s*;"]))
     body = one_def(dm, r"leftmultiply", "DenseMatrix::leftmultiply")[1]
-    out.append("def psig_dmLeftmultiply : ProdSig :=\n  " + prod_sig(
-        body, "DenseMatrix::leftmultiply", r"\(\*this\)", "M", "C",
+    sig, inplace["dmLeftmultiply"] = inplace_sig(
+        body, "DenseMatrix::leftmultiply", True,
         {"rows()": "sndRows", "N()": "sndRows", "cols()": "sndCols", "M()": "sndCols", "M.rows()": "fstRows", "M.cols()": "fstCols",
          "M.N()": "fstRows", "M.M()": "fstCols", "C.rows()": "sndRows", "C.cols()": "sndCols", "C.N()": "sndRows", "C.M()": "sndCols"},
-        pre=[r"AutonomousValue<MAT>\s*C\s*\(\s*asImp\(\)\s*\)\s*;"]))
+        [r"AutonomousValue<MAT>\s*C\s*\(\s*asImp\(\)\s*\)\s*;"], {"rows()", "N()", "C.rows()", "C.N()"}, {"cols()", "M()", "C.cols()", "C.M()"})
+    out.append("def psig_dmLeftmultiply : ProdSig :=\n  " + sig)
     body = one_def(dm, r"rightmultiply", "DenseMatrix::rightmultiply")[1]
-    out.append("def psig_dmRightmultiply : ProdSig :=\n  " + prod_sig(
-        body, "DenseMatrix::rightmultiply", r"\(\*this\)", "C", "M",
+    sig, inplace["dmRightmultiply"] = inplace_sig(
+        body, "DenseMatrix::rightmultiply", False,
         {"rows()": "fstRows", "N()": "fstRows", "cols()": "fstCols", "M()": "fstCols", "M.rows()": "sndRows", "M.cols()": "sndCols",
          "M.N()": "sndRows", "M.M()": "sndCols", "C.rows()": "fstRows", "C.cols()": "fstCols", "C.N()": "fstRows", "C.M()": "fstCols"},
-        pre=[r"AutonomousValue<MAT>\s*C\s*\(\s*asImp\(\)\s*\)\s*;"]))
+        [r"AutonomousValue<MAT>\s*C\s*\(\s*asImp\(\)\s*\)\s*;"], {"rows()", "N()", "C.rows()", "C.N()"}, {"cols()", "M()", "C.cols()", "C.M()"})
+    out.append("def psig_dmRightmultiply : ProdSig :=\n  " + sig)
+    out.append("-- the in-place products accumulate in the copy C (reading the untouched *this and M, then copy back) or write *this directly")
+    for k in ("dmLeftmultiply", "dmRightmultiply", "fmRightmultiply"):
+        out.append("def inplace_%s : InPlaceVia := %s" % (k, inplace[k]))
     def free_body(src, rx, what):
         ms = list(re.finditer(rx, src))
         if len(ms) != 1:
@@ -762,6 +891,26 @@ def translate(repo):
     body = free_body(fraw, r"static\s+inline\s+void\s+multTransposedMatrix\s*\(", "FMatrixHelp::multTransposedMatrix")
     out.append("def psig_multTransposedMatrix : ProdSig :=\n  " + prod_sig(
         body, "FMatrixHelp::multTransposedMatrix", "ret", "matrix", "matrix", {"rows": "fstRows", "cols": "fstCols"}))
+    out.append("")
+    out.append("-- densematrix.hh: unary minus of DenseMatrix (result declared from asImp(), nest rows x cols)")
+    what = "DenseMatrix::operator-()"
+    body = one_def(dm, r"operator-", what, lambda p: p == "")[1]
+    out.append("def mnegResult : NegResult := %s" % neg_result(body, what, "MAT"))
+    out.append("def msig_neg : EwSig := %s" % ew_sig(
+        body, what, NEG_DECL % ("MAT", "MAT"), [r"(?:this->)?(?:rows\(\)|N\(\))", r"(?:this->)?(?:cols\(\)|M\(\))"],
+        {r"asImp\(\)|\(\*this\)": ".a"}))
+    out.append("-- fmatrix.hh: FieldMatrix + FieldMatrix, - , * scalar, scalar *, / scalar (fresh result, nest ROWS x COLS)")
+    mm = "constFieldMatrix&matrixA,constFieldMatrix<OtherScalar,ROWS,COLS>&matrixB"
+    for name, rx, params, ents, sc in (("plus", r"operator\+", mm, {"matrixA": ".a", "matrixB": ".b"}, None),
+                                       ("minus", r"operator-", mm, {"matrixA": ".a", "matrixB": ".b"}, None),
+                                       ("times", r"operator\*", "constFieldMatrix&matrix,Scalarscalar", {"matrix": ".a"}, "scalar"),
+                                       ("ltimes", r"operator\*", "Scalarscalar,constFieldMatrix&matrix", {"matrix": ".a"}, "scalar"),
+                                       ("over", r"operator/", "constFieldMatrix&matrix,Scalarscalar", {"matrix": ".a"}, "scalar")):
+        what = "FieldMatrix operator %s" % name
+        body = one_def(fm, rx + r"(?!=)", what, lambda p, q=params: p == q)[1]
+        out.append("def fmsig_%s : EwSig := %s" % (name, ew_sig(
+            body, what, r"FieldMatrix<typename\s+PromotionTraits<K,\s*(?:OtherScalar|Scalar)>::PromotedType,\s*ROWS,\s*COLS>\s*result\s*;",
+            [r"ROWS|rows|matrix[AB]?\.(?:N|rows|mat_rows)\(\)", r"COLS|cols|matrix[AB]?\.(?:M|cols|mat_cols)\(\)"], ents, scalar=sc)))
     out.append("")
     out.append("-- transposed(): FieldMatrix, DynamicMatrix")
     body = one_def(fm, r"transposed", "FieldMatrix::transposed")[1]
